@@ -12,7 +12,10 @@ theorems are re-checked.
   targets are carried in 24 bits. That gap cannot be replayed (it needs > 16 M instructions in
   one function) and is recorded, not raised: `body_gap_recorded`, `guardFitsAll_false`;
 * `guarded_index_reads_back`: an index that passed the guard is read back unchanged by the VM;
-  `limit_raised_exactly_at_guard`: the append that would go past the guard raises the limit error. -/
+  `limit_raised_exactly_at_guard`: the append that would go past the guard raises the limit error;
+* `no_guard_before_lookup` + `lookup_existing_never_limit`: a program within the limits is not
+  refused: no limit test runs before the de-duplication lookup, so re-using an entry of a full
+  table succeeds. -/
 namespace ScriggoV.Limits
 open ScriggoV.Gen.Encoding
 
@@ -176,7 +179,7 @@ theorem unguarded_row_fails (r : Row) (w : Nat) (hw : r.width = some w) (hg : r.
     r.fits = false := by
   simp [Row.fits, hw, hg]
 example : ∃ r : Row, r.width = some 16 ∧ r.guard = none :=
-  ⟨{ table := "Text", site := "", guard := none, message := "", width := some 16, reserved := 0, codec := .u16 }, rfl, rfl⟩
+  ⟨{ table := "Text", site := "", guard := none, message := "", width := some 16, reserved := 0, codec := .u16, guardBeforeLookup := false }, rfl, rfl⟩
 
 /-- the operand width recorded in a row is the width of the codec that carries the index -/
 theorem codec_width_agree : ∀ r ∈ limits, r.codec ≠ .notOperand → r.width = some r.codec.bits := by
@@ -236,6 +239,24 @@ theorem lenAfter_unguarded : ∀ k, lenAfter none k = some k := by
   induction k with
   | zero => rfl
   | succ k ih => simp [lenAfter, ih, appendAt]
+
+/-- **using an entry that is already in the table never raises the limit error**, however full the
+table is, when the lookup comes before the guarded append … -/
+theorem lookup_existing_never_limit (guard : Option Nat) (len j : Nat) :
+    intern false guard len (some j) = .ok j := rfl
+
+/-- … and a new value goes through the guarded append -/
+theorem intern_new (guard : Option Nat) (len : Nat) : intern false guard len none = appendAt guard len := rfl
+
+/-- … whereas with the test first a full table refuses even the values it holds (a program within
+the limits would fail to build) -/
+theorem guard_first_refuses_existing (g j : Nat) : intern true (some g) g (some j) = .limitExceeded := by
+  simp [intern, appendAt]
+example : intern true (some 256) 256 (some 0) = .limitExceeded := by decide
+
+/-- no append site of the code tests the limit before the lookup that makes the append conditional:
+between the limit test and the append no path leaves the function -/
+theorem no_guard_before_lookup : ∀ r ∈ limits, r.guardBeforeLookup = false := by decide +kernel
 
 theorem checkCount_spec (g n : Nat) : checkCount (some g) n = if n ≤ g then .ok n else .limitExceeded := by
   by_cases h : n ≤ g
